@@ -468,9 +468,21 @@ func main() {
 	respIP := flag.String("ip", "", "responder mode: answer the ARP request for this address")
 	respAfter := flag.Duration("after", 200*time.Millisecond, "responder mode: answer this long after the request")
 	respTotal := flag.Duration("total", 20*time.Second, "responder mode: overall timeout")
+	respSkip := flag.Int("skip", 0, "responder mode with -ip any: leave this many requests unanswered first")
+	parseMode := flag.Bool("parse", false, "parse mode: --exit-delay through every command's flag set and parseRawOptions")
+	rxMode := flag.Int("rx", 0, "rx mode: real receiver over a quiet reader, runs with up to this many consecutive temporary errors")
+	rxOnly := flag.Int("rxonly", -1, "rx mode: only this case id")
 	flag.Parse()
+	if *parseMode {
+		parseAll(*out)
+		return
+	}
+	if *rxMode > 0 {
+		rxAll(*out, *rxMode, *rxOnly)
+		return
+	}
 	if *respIface != "" {
-		respond(*out, *respIface, *respIP, *respAfter, *respTotal)
+		respond(*out, *respIface, *respIP, *respAfter, *respTotal, *respSkip)
 		return
 	}
 	w := hlib.NewOut(*out)
